@@ -129,6 +129,7 @@ class Translator:
         self.records = {}    # name -> [(field, type)]
         self.rec_module = {}
         self.funcs = {}      # qual (Class.method or func) -> Func
+        self.externs = {}    # python name -> (coq function text, [arg types], ret type): hand/generated helpers
         self.cur_mod = None
 
     # ---------------------------------------------------------- records
@@ -196,6 +197,7 @@ class Translator:
             if i == 0 and cls and len(parts) == 2 and not is_static:
                 if is_cls: continue
                 params.append((arg.arg, ('rec', cls), None)); continue
+            if sig.get(arg.arg) == 'drop': continue
             if arg.arg in sig:
                 t = parse_ty(sig[arg.arg])
             elif arg.annotation is not None:
@@ -204,8 +206,7 @@ class Translator:
                 raise Abort(f"{qual}: parameter {arg.arg} has no type")
             if t == 'drop': continue
             params.append((arg.arg, t, dflt))
-        for fv, ft in free:
-            params.insert(0, (fv, parse_ty(ft), None))
+        params = [(fv, parse_ty(ft), None) for fv, ft in free] + params
         if 'return' in sig: ret = parse_ty(sig['return'])
         elif node.returns is not None: ret = self.ann_ty(node.returns)
         else: raise Abort(f"{qual}: no return type")
@@ -405,6 +406,9 @@ class Ctx:
         if isinstance(ta, tuple) and ta[0] == 'list' and opn == 'Add':
             b, tb = self.expr(e.right, ta)
             return f"({a} ++ {b})", ta
+        if (isinstance(tb, tuple) and tb[0] == 'list' and opn == 'Add' and isinstance(ta, tuple) and ta[0] == 'tup'
+                and all(x == tb[1] for x in ta[1]) and len(ta[1]) == 2):
+            return f"([fst {a}; snd {a}] ++ {b})", tb
         if isinstance(tb, tuple) and tb[0] == 'list' and opn == 'Add' and isinstance(e.left, ast.Tuple):
             a, ta = self.expr(e.left, tb)
             return f"({a} ++ {b})", tb
@@ -487,6 +491,9 @@ class Ctx:
         b, tb = self.expr0(r)
         if ta == 'str' and tb == 'str': return f"(str_contains {a} {b})"
         if ta == 'cmd' and tb == 'str': return f"(str_contains (String {a} EmptyString) {b})"
+        if isinstance(tb, tuple) and tb[0] == 'assoc':
+            if ta != tb[1]: abort(node, "assoc membership type")
+            return f"(existsb (fun x_m => {self.tr.eqb_text(ta, a, '(fst x_m)')}) {b})"
         if isinstance(tb, tuple) and tb[0] == 'list':
             if ta == 'lit': a, ta = self.coerce(a, ta, tb[1])
             if ta != tb[1]: abort(node, f"membership {ta} in {tb}")
@@ -604,6 +611,11 @@ class Ctx:
             if n in tr.funcs:
                 f = tr.funcs[n]
                 return self.mk_call(f, self.args_for(f, e), want)
+            if n in tr.externs:
+                coqf, ats, rt = tr.externs[n]
+                if len(e.args) != len(ats): abort(e, "extern arity")
+                args = [self.expr(a, parse_ty(t))[0] for a, t in zip(e.args, ats)]
+                return "(" + " ".join([coqf] + args) + ")", parse_ty(rt)
             if n in MATH1 and len(e.args) == 1:
                 return f"({MATH1[n]} (N:=N) MO {self.num(e.args[0])})", 'num'
             if n == 'atan2': return f"(m_atan2 (N:=N) MO {self.num(e.args[0])} {self.num(e.args[1])})", 'num'
@@ -940,6 +952,11 @@ class Ctx:
                     out += f"let {name} := {tmp} in\n"; self.env[name] = t
                 return out + self.block(rest)
             vt, t = self.expr0(value)
+            if isinstance(t, tuple) and t[0] == 'list' and all(isinstance(x, ast.Name) for x in target.elts):
+                out = f"let v_r := {vt} in\n"
+                for i, tg in enumerate(target.elts):
+                    out += f"let {tg.id} := (nth {i} v_r {default_val(t[1])}) in\n"; self.env[tg.id] = t[1]
+                return out + self.block(rest)
             pat = self.pattern(target, t)
             if isinstance(t, tuple) and t[0] == 'rec':
                 fields = self.tr.records[t[1]]
@@ -978,7 +995,7 @@ class Ctx:
                 if len(t[1]) != len(target.elts): abort(target, "tuple unpack arity")
                 return "(" + ", ".join(self.pattern(tg, tt) for tg, tt in zip(target.elts, t[1])) + ")"
             if isinstance(t, tuple) and t[0] == 'list':
-                abort(target, "unpacking a list")
+                abort(target, "unpacking a list in a pattern")
         abort(target, f"pattern for {t}")
 
     def if_stmt(self, s, rest):
@@ -992,35 +1009,54 @@ class Ctx:
                 d, _ = self.expr(s.body[0].value, t[1])
                 self.env[x] = t[1]
                 return f"let {x} := match {x} with None => {d} | Some v_r => v_r end in\n{self.block(rest)}"
-        c = self.cond(s.test)
-        if c in ('true', '(negb false)'): return self.block(list(s.body) + rest)
-        if c in ('false', '(negb true)'): return self.block(list(s.orelse) + rest)
+        # `if x:` / `if x is not None:` on an optional value unwraps it in the body
+        unwrap = None
+        tst = s.test
+        if isinstance(tst, ast.Name) and isinstance(self.env.get(tst.id), tuple) and self.env[tst.id][0] == 'opt':
+            unwrap = tst.id
+        if (isinstance(tst, ast.Compare) and isinstance(tst.ops[0], ast.IsNot) and isinstance(tst.left, ast.Name)
+                and isinstance(self.env.get(tst.left.id), tuple) and self.env[tst.left.id][0] == 'opt'):
+            unwrap = tst.left.id
+        if unwrap:
+            inner = self.env[unwrap][1]
+            if inner == 'cmd' or inner == 'str' or inner == 'num':
+                pass   # a present value is also truthy for these uses (command letters are non-empty)
+            head, mid, tail = f"match {unwrap} with\n| Some {unwrap} =>", "| None =>", "\nend"
+            a = Ctx(self.tr, self.f, {**self.env, unwrap: inner}); b = Ctx(self.tr, self.f, self.env)
+        else:
+            c = self.cond(s.test)
+            if c in ('true', '(negb false)'): return self.block(list(s.body) + rest)
+            if c in ('false', '(negb true)'): return self.block(list(s.orelse) + rest)
+            head, mid, tail = f"if {c} then", "else", ""
+            a = Ctx(self.tr, self.f, self.env); b = Ctx(self.tr, self.f, self.env)
         body_exit, else_exit = self.has_exit(s.body), self.has_exit(s.orelse)
         if self.f.gen and any(isinstance(n, (ast.Yield, ast.YieldFrom)) for st in s.body + s.orelse for n in ast.walk(st)):
-            a = Ctx(self.tr, self.f, self.env); b = Ctx(self.tr, self.f, self.env)
-            return f"if {c} then\n{a.block(s.body + rest)}\nelse\n{b.block(s.orelse + rest)}"
+            return f"{head}\n{a.block(s.body + rest)}\n{mid}\n{b.block(s.orelse + rest)}{tail}"
         if not body_exit and not else_exit:
-            vs = [v for v in self.assigned(s.body + s.orelse)]
-            new = [v for v in vs if v not in self.env]
+            live = set(n.id for st in rest for n in ast.walk(st) if isinstance(n, ast.Name))
+            live |= set(getattr(self, 'extra_live', ()))
+            vs = [v for v in self.assigned(s.body + s.orelse) if v in live]
+            new = [v for v in vs if v not in self.env or v == unwrap]
             both = [v for v in new if v in self.assigned(s.body) and v in self.assigned(s.orelse)]
-            if new != both: abort(s, f"variables {new} first assigned inside only one branch")
-            if not vs: abort(s, "if without effect")
-            a = Ctx(self.tr, self.f, self.env); b = Ctx(self.tr, self.f, self.env)
+            if new != both: abort(s, f"variables {new} first assigned inside only one branch but used later")
+            if not vs:
+                # nothing escapes the statement: it has no effect on the rest
+                return self.block(rest)
             tup = vs[0] if len(vs) == 1 else "(" + ", ".join(vs) + ")"
             pat = vs[0] if len(vs) == 1 else "'(" + ", ".join(vs) + ")"
+            a.extra_live = b.extra_live = set(vs) | live
             ta = a.block_then(s.body, tup); tb = b.block_then(s.orelse, tup)
             for v in vs:
-                if a.env[v] != b.env[v] or (v in self.env and a.env[v] != self.env[v]):
+                if a.env[v] != b.env[v] or (v in self.env and v != unwrap and a.env[v] != self.env[v]):
                     abort(s, f"variable {v} changes type across branches")
                 self.env[v] = a.env[v]
-            return f"let {pat} :=\n  if {c} then\n{textwrap.indent(ta, '    ')}\n  else\n{textwrap.indent(tb, '    ')} in\n{self.block(rest)}"
-        a = Ctx(self.tr, self.f, self.env); b = Ctx(self.tr, self.f, self.env)
+            return f"let {pat} :=\n  {head}\n{textwrap.indent(ta, '    ')}\n  {mid}\n{textwrap.indent(tb, '    ')}{tail} in\n{self.block(rest)}"
         if self.ends(s.body):
-            return f"if {c} then\n{textwrap.indent(a.block(s.body), '  ')}\nelse\n{b.block(s.orelse + rest)}"
+            return f"{head}\n{textwrap.indent(a.block(s.body), '  ')}\n{mid}\n{b.block(s.orelse + rest)}{tail}"
         if self.ends(s.orelse):
-            return f"if {c} then\n{a.block(s.body + rest)}\nelse\n{textwrap.indent(b.block(s.orelse), '  ')}"
+            return f"{head}\n{a.block(s.body + rest)}\n{mid}\n{textwrap.indent(b.block(s.orelse), '  ')}{tail}"
         # a branch may or may not leave: duplicate the continuation
-        return f"if {c} then\n{a.block(s.body + rest)}\nelse\n{b.block(s.orelse + rest)}"
+        return f"{head}\n{a.block(s.body + rest)}\n{mid}\n{b.block(s.orelse + rest)}{tail}"
 
     def block_then(self, stmts, final):
         """translate stmts (no exits) and finish with the expression `final`"""
@@ -1067,6 +1103,7 @@ class Ctx:
         tup = vs[0] if len(vs) == 1 else "(" + ", ".join(vs) + ")"
         pat = vs[0] if len(vs) == 1 else "'(" + ", ".join(vs) + ")"
         sub = Ctx(self.tr, self.f, {**self.env, v: vt})
+        sub.extra_live = set(vs) | set(getattr(self, 'extra_live', ())) | set(n.id for st in rest for n in ast.walk(st) if isinstance(n, ast.Name))
         body = sub.block_then(list(s.body), tup)
         for x in vs:
             if sub.env[x] != self.env[x]: abort(s, f"loop variable {x} changes type")
